@@ -199,6 +199,52 @@ def run(R):
                        "fetch_from_data_map_chunk removes %s before parsing DataMapLevel" % (wl, rl), fd, fd.lines[0])
             R.inst("C14.levels.layers", "K7 table agreement", "writer's serialisation layers per additional level == reader's deserialisation layers", 2, ok,
                    {"writer_chunk_serialise_layers": wl, "reader_chunk_deserialise_layers": rl})
+    # (4a) every ChunkInfo of the data map yields a download, and every download reaches decrypt_full_set
+    from rules import _chain_calls, DROPPING_ADAPTORS, CallSink
+    fb = R.body("C14.fetch.all", CL + "fetch_from_data_map::{closure#0}")
+    if fb is not None:
+        prep(fb)
+        g = cfg_of(fb)
+        INFOS = "self_encryption::data_map::DataMap::infos"
+        okf = True
+        proc = [b for b in fb.blocks if b["term"]["k"] == "call" and not b["cleanup"] and callee_matches(b["term"], ["autonomi::client::utils::process_tasks_with_max_concurrency"])]
+        dec = [b for b in fb.blocks if b["term"]["k"] == "call" and not b["cleanup"] and callee_matches(b["term"], ["self_encryption::decrypt_full_set"])]
+        if not proc or not dec:
+            okf = False
+            R.viol("C14.fetch.all", "anchor-missing:fetch", "fetch_from_data_map: process_tasks_with_max_concurrency / decrypt_full_set not found", fb, fb.lines[0])
+        else:
+            names, _f = _chain_calls(F, fb, op_local(proc[0]["term"]["args"][0]))
+            dropped = [n for n in names if any(n.endswith(x) or (x + "<") in n for x in DROPPING_ADAPTORS)]
+            if INFOS not in names or dropped:
+                okf = False
+                R.viol("C14.fetch.all", "tasks-source", "the download tasks are not built from every entry of data_map.infos() (%s)" % (dropped[0] if dropped else "infos() not on the chain"), fb, proc[0]["term"]["l"])
+            names2, _f2 = _chain_calls(F, fb, op_local(dec[0]["term"]["args"][1]))
+            dropped2 = [n for n in names2 if any(n.endswith(x) or (x + "<") in n for x in DROPPING_ADAPTORS)]
+            if "autonomi::client::utils::process_tasks_with_max_concurrency" not in names2 or dropped2:
+                okf = False
+                R.viol("C14.fetch.all", "chunks-source", "decrypt_full_set is not handed every downloaded chunk (%s)" % (dropped2[0] if dropped2 else "task results not on the chain"), fb, dec[0]["term"]["l"])
+            # loop form: no iteration over infos() comes round without having pushed a task
+            pushes = set(CallSink("alloc::vec::Vec::push", "*Vec<T, A>::push", "*FuturesUnordered<Fut>::push", "*FuturesOrdered<Fut>::push_back").blocks(fb))
+            nloops = 0
+            for nb in fb.blocks:
+                t = nb["term"]
+                if nb["cleanup"] or t["k"] != "call" or not (t["ngen"] or "").endswith("iterator::Iterator::next"):
+                    continue
+                it = Taint(fb).ref_of.get(op_local(t["args"][0]), {op_local(t["args"][0])})
+                src = set()
+                for l in it:
+                    src |= set(_chain_calls(F, fb, l)[0])
+                if INFOS not in src:
+                    continue
+                nloops += 1
+                tr = Tracker(fb)
+                tr.seed_call_result(t["d"][0], ("None",), False)
+                tr.run()
+                starts = tuple(d for _, d in tr.reject)
+                if not pushes or nb["id"] in g.reach(starts, avoid=pushes):
+                    okf = False
+                    R.viol("C14.fetch.all", "info-skipped", "an entry of data_map.infos() can be skipped without a download task (the loop comes round without pushing)", fb, t["l"])
+        R.inst("C14.fetch.all", "K5 must-follow", "every ChunkInfo yields a download task and every downloaded chunk reaches decrypt_full_set", len(proc) + len(dec), okf)
     # (4) index pairing
     fm = [b for b in F.item(CL + "fetch_from_data_map") if b.kind == "closure" and any(c["ncallee"] == "autonomi::client::data::public::<impl autonomi::client::Client>::chunk_get" for c in b.calls)]
     ok = False
